@@ -49,6 +49,11 @@ func (r *MRepo) RetainedExact(f *Fix, p GCPolicy) map[string]bool {
 		if !it.Manifest {
 			return
 		}
+		if _, has := r.Cas[n]; !has {
+			// the bytes of the manifest are gone (removed through the blob API): nothing is reachable through it
+			delete(keep, n)
+			return
+		}
 		if it.Config != "" {
 			keep[it.Config] = true
 		}
@@ -319,6 +324,16 @@ func c06Specs(tier string) []*h.SeqSpec {
 			ops = append(ops, h.Op{Name: "delete I1 by digest", Do: func(w *h.World) []h.Violation {
 				w.Delete("/v2/" + repo + "/manifests/" + f.Items["I1"].Dig)
 				regM(w).Repo(repo).DeleteManifest("I1")
+				return nil
+			}})
+			// the bytes of a listed manifest removed through the blob API: its index entry has no backing content any more,
+			// the next pass has to drop it ("leaves no index entry without backing content")
+			ops = append(ops, h.Op{Name: "delete the bytes of I2 through the blob API", Do: func(w *h.World) []h.Violation {
+				m := regM(w).Repo(repo)
+				if r := w.Delete("/v2/" + repo + "/blobs/" + f.Items["I2"].Dig); r.Status == 202 {
+					m.DeleteManifest("I2")
+					delete(m.Cas, "I2")
+				}
 				return nil
 			}})
 			for _, traffic := range []bool{false, true} {
